@@ -297,7 +297,7 @@ def run(tier, only=None):
     t0 = time.time()
     specs = [s for s in SPLITS if not only or s[0] in only or s[0].split(".")[0] in only]
     obs = []
-    if specs and not (only and set(only) <= {"kani", "split", "zz"}):
+    if specs and not (only and set(only) <= {"kani", "split", "zz", "theta"}):
         ds = [split_driver(s[0], s[1], s[2], F.BYTAG[s[3]]) for s in specs]
         built = build(ds, tag="C11-default")
         timeout = 120 if tier == "quick" else 1200
@@ -328,6 +328,9 @@ def run(tier, only=None):
             obs.extend(ZZ.obligations(zb, tier, shifts, 60 if tier == "quick" else 300))
         finally:
             zb.close()
+    if not only or "theta" in only or "secp256k1" in only:
+        from . import C11_theta as TH
+        obs.extend(TH.obligations(tier))
     if not only or "split" in only:
         from . import C11_split as SP
         obs.extend(SP.obligations(tier))
